@@ -17,7 +17,8 @@ import weave as W  # noqa: E402
 from rsscan import ScanError  # noqa: E402
 
 REPO = os.environ.get('VERIF_REPO', '/repo')
-BUILD = os.path.join(VERIF, 'build')
+BUILD = os.environ.get('VERIF_BUILD') or os.path.join(VERIF, 'build')
+CACHE = os.path.join(VERIF, 'build', 'cache')
 CONTRACTS = os.path.join(VERIF, 'contracts')
 
 
@@ -41,7 +42,7 @@ def cached_verus(cmd, path, cwd):
         return sh(cmd, cwd=cwd, timeout=3600) + (False,)
     text = open(path, 'rb').read()
     key = hashlib.sha256(text + b'\0' + ' '.join(cmd[2:]).encode() + b'\0' + os.path.basename(path).encode()).hexdigest()
-    cdir = os.path.join(BUILD, 'cache')
+    cdir = CACHE
     os.makedirs(cdir, exist_ok=True)
     cp = os.path.join(cdir, key + '.json')
     if os.path.exists(cp):
@@ -108,9 +109,9 @@ def analyse_woven(text):
         fn_of[i] = cur_fn
         blk_of[i] = cur_blk
         if cur_blk:
-            m = re.search(r'//#([A-Za-z0-9_]+)(?::\s*([A-Z0-9 ,]+))?\s*$', l)
+            m = re.search(r'//#([A-Za-z0-9_]+)(?::\s*(\+?[A-Z0-9 ,]+))?\s*$', l)
             if m:
-                cur_lab = (m.group(1), [p for p in re.split(r'[ ,]+', m.group(2) or '') if p])
+                cur_lab = (m.group(1), [p for p in re.split(r'[ ,]+', (m.group(2) or '').replace('+', '+ ')) if p])
                 oid = '%s/%s#%s' % (cur_blk[0], cur_blk[1], cur_lab[0])
                 ob = obligations.setdefault(oid, dict(fn=cur_blk[0], sec=cur_blk[1], label=cur_lab[0], props_override=[], clauses=[]))
                 for p in cur_lab[1]:
@@ -469,7 +470,8 @@ def props_of(ob, info):
     if ob['props_override']:
         # the representation invariant is what carries each operation's own property to later calls
         # (no hidden cells, cursor inside, ...): its clause counts for the function's properties too
-        if ob['label'] == 'wf':
-            return list(dict.fromkeys(ob['props_override'] + fprops))
+        # ... `//#label: +Pxx Pyy` adds tags to the function's properties instead of substituting them
+        if ob['label'] == 'wf' or '+' in ob['props_override']:
+            return [q for q in dict.fromkeys(ob['props_override'] + fprops) if q != '+']
         return ob['props_override']
     return fprops
